@@ -128,13 +128,19 @@ def layout_class(name, dirn, path):
 
 
 def known_layout(name, ver, dirn, path):
-    """Is this divergence (api, version, direction, spec field) recorded?  Returns the finding or None."""
-    cls = layout_class(name, dirn, path)
+    """Is a mismatch at this spec field explained by a recorded divergence of (api, version,
+    direction)?  The recorded field itself, or an array enclosing it: the dissector keeps only the
+    elements it decoded, so a divergence inside an element can cut the enclosing arrays short and
+    then shows first at their count.  Returns the finding or None."""
     for f in known_entries().get("findings", []):
-        if f.get("class") == cls and f.get("property") == "C06":
-            w = f.get("witness", {})
-            if w.get("versions") and ver in w["versions"]:
-                return f
+        w = f.get("witness", {})
+        if f.get("property") != "C06" or not f.get("class", "").startswith("layout:"):
+            continue
+        if w.get("api") != name or w.get("direction") != dirn or ver not in w.get("versions", []):
+            continue
+        q = w.get("first_diverging_field", "")
+        if q == path or q.startswith(path + "[]"):
+            return f
     return None
 
 
@@ -249,9 +255,8 @@ def check_conversation(ctx, conv, res, how):
                 continue
             idx, why = mm
             path = toks[idx]["p"] if idx < len(toks) else "(end)"
-            cls = layout_class(ex["name"], dirn, path)
             kf = known_layout(ex["name"], ex["ver"], dirn, path)
-            fail(cls if kf else None, "%s v%d %s: field %s: %s" % (ex["name"], ex["ver"], dirn, path, why),
+            fail(kf["class"] if kf else None, "%s v%d %s: field %s: %s" % (ex["name"], ex["ver"], dirn, path, why),
                  api=ex["name"], ver=ex["ver"], dir=dirn, field=path, known=bool(kf))
     if not fails:
         if [i["corr"] for i in got] != [e["corr"] for e in exp]:
